@@ -337,7 +337,55 @@ func c05cShared(p *Pkg, rel string, vars *[]c05bSite, out *[]c05bSite) {
 	}
 }
 
+// c05cTypeSwitches: the cases of the type switches through which parameter values are classified.
+func c05cTypeSwitches(p *Pkg, w *strings.Builder) {
+	type row struct{ fn, typ, shape string }
+	var rows []row
+	eachFunc(p, func(fd *ast.FuncDecl, name string) {
+		if name != "ValueToDataType" && name != "NegotiateValue" {
+			return
+		}
+		ast.Inspect(fd.Body, func(n ast.Node) bool {
+			ts, ok := n.(*ast.TypeSwitchStmt)
+			if !ok {
+				return true
+			}
+			for _, st := range ts.Body.List {
+				for _, e := range st.(*ast.CaseClause).List {
+					t := p.Info.Types[e].Type
+					if t == nil {
+						continue
+					}
+					shape := "scalar"
+					switch t.Underlying().(type) {
+					case *types.Slice:
+						shape = "slice"
+					case *types.Map:
+						shape = "map"
+					case *types.Pointer:
+						shape = "pointer"
+					case *types.Interface:
+						shape = "interface"
+					}
+					rows = append(rows, row{name, types.TypeString(t, func(q *types.Package) string { return q.Name() }), shape})
+				}
+			}
+			return false
+		})
+	})
+	w.WriteString("/-- cases of the type switches of pgsql.ValueToDataType / pgsql.NegotiateValue: (function, dynamic type, shape) -/\ndef valueTypeSwitchCases : List (String × String × String) := [\n")
+	for i, r := range rows {
+		sep := ","
+		if i == len(rows)-1 {
+			sep = ""
+		}
+		fmt.Fprintf(w, "  (%s, %s, %s)%s\n", leanStr(r.fn), leanStr(r.typ), leanStr(r.shape), sep)
+	}
+	w.WriteString("]\n\n")
+}
+
 func c05cWrite(w *strings.Builder, pkgs map[string]*Pkg) {
+	c05cTypeSwitches(pkgs["cypher/models/pgsql"], w)
 	var vars, sites []c05bSite
 	for _, rel := range []string{"cypher/models/pgsql/translate", "cypher/models/pgsql/optimize", "cypher/models/pgsql/format", "cypher/models/pgsql", "cypher/models/cypher", "cypher/models/walk"} {
 		c05cShared(pkgs[rel], rel, &vars, &sites)
